@@ -125,7 +125,17 @@ func cmdFn(args []string) int {
 		}
 		solveAll(res.VCs, *secs, "quick", 16)
 		ok, fail := 0, 0
+		canaryOK := false
+		for _, vc := range res.VCs {
+			if vc.Kind == "canary" && vcGood(vc) {
+				canaryOK = true
+			}
+		}
 		for i, vc := range res.VCs {
+			if vc.Kind == "canary" && canaryOK {
+				ok++
+				continue
+			}
 			good := vcGood(vc)
 			if good {
 				ok++
